@@ -160,6 +160,14 @@ impl Subject for C04 {
         if r == "flow-b" || r == "mixed" {
             flow::load_rules(vec![Arc::new(flow::Rule { id: "flow".into(), resource: B.into(), threshold: 2.0, ..Default::default() })]);
         }
+        if r == "many-resources" {
+            // 10 000 other resources have been seen by the process before a and b are
+            for i in 0..10_000 {
+                if let Built::Ok(e) = build(&format!("c04-other-{}", i), TrafficType::Outbound, 1) {
+                    e.exit();
+                }
+            }
+        }
         if r == "throttle-b" {
             // a throttling rule that queues (and sometimes rejects) entries on b
             flow::load_rules(vec![Arc::new(flow::Rule { id: "thr".into(), resource: B.into(), threshold: 2.0, stat_interval_ms: 1000, control_strategy: flow::ControlStrategy::Throttling, max_queueing_time_ms: 600, ..Default::default() })]);
@@ -255,11 +263,21 @@ pub fn configs(thorough: bool) -> Vec<Cfg> {
             v.push(Cfg { rules: r.into(), phase: *ph });
         }
     }
+    // a process that has seen very many resource names (short sequences: the set-up is long)
+    v.push(Cfg { rules: "many-resources".into(), phase: 0 });
     v
 }
 
 pub fn run(o: &Opts, stats: &mut Stats) -> Option<usize> {
     let cfgs = configs(o.thorough);
     let thorough = o.thorough;
-    run_configs(o, stats, &cfgs, |c, _| C04::new(c), &move |_c: &Cfg| if thorough { vec![Pass { depth: 8, max_dev: 4 }] } else { vec![Pass { depth: 6, max_dev: 3 }] })
+    run_configs(o, stats, &cfgs, |c, _| C04::new(c), &move |c: &Cfg| {
+        if c.rules == "many-resources" {
+            vec![Pass { depth: if thorough { 3 } else { 2 }, max_dev: 3 }]
+        } else if thorough {
+            vec![Pass { depth: 8, max_dev: 4 }]
+        } else {
+            vec![Pass { depth: 6, max_dev: 3 }]
+        }
+    })
 }
